@@ -58,7 +58,7 @@ class KademliaRPC:
     def store(self, rpc_contact: 'KademliaPeer', blob_hash: bytes, token: bytes, port: int) -> bytes:
         if not isinstance(blob_hash, bytes) or len(blob_hash) != constants.HASH_BITS // 8:
             raise ValueError("invalid blob hash")
-        if not isinstance(port, int) or not 0 < port < 65535:
+        if not isinstance(port, int) or not 1024 <= port <= 65535:  # the bounds KademliaPeer enforces for a searcher
             raise ValueError("invalid tcp port")
         if not self.verify_token(token, rpc_contact.compact_ip()):
             if self.loop.time() - self.protocol.started_listening_time < constants.TOKEN_SECRET_REFRESH_INTERVAL:
@@ -167,7 +167,7 @@ class RemoteKademliaRPC:
         """
         if len(blob_hash) != constants.HASH_BITS // 8:
             raise ValueError(f"invalid length of blob hash: {len(blob_hash)}")
-        if not self.protocol.peer_port or not 0 < self.protocol.peer_port < 65535:
+        if not self.protocol.peer_port or not 1024 <= self.protocol.peer_port <= 65535:
             raise ValueError(f"invalid tcp port: {self.protocol.peer_port}")
         token = self.peer_tracker.get_node_token(self.peer.node_id)
         if not token:
